@@ -104,6 +104,13 @@ let handle toks =
   | ["lmp"; s; lines] ->
     let (out, miss) = lmp_write_for_run (lst ',' (pair_of ':' str_of_hex str_of_hex) s) (lines_of lines) in
     out_lst ";" (fun l -> out_lst "," string_of_piece l) out ^ "|" ^ out_lst "," hex_of_str miss
+  | ["lmpi"; s; lines] ->
+    (* the code as written (str.replace inside the words of a line) + the clean-line guard *)
+    let st = lst ',' (pair_of ':' str_of_hex str_of_hex) s in
+    let ls = lines_of lines in
+    let (out, miss) = lmp_impl_write_for_run st ls in
+    out_lst ";" (fun l -> out_lst "," string_of_piece l) out ^ "|" ^ out_lst "," hex_of_str miss
+    ^ "|" ^ out_lst "," (fun l -> string_of_bool_ (lmp_line_clean st l)) ls
   | ["lmprows"; frame; n; rows] ->
     let (b, a) = lmp_read_rows (lst ',' (pair_of ':' z_of_string nat_of_string) rows) (nat_of_string frame) (nat_of_string n) in
     out_lst "," string_of_nat b ^ "|" ^ out_lst "," string_of_nat a
